@@ -33,6 +33,7 @@ TRUTH = ("truth",)
 SCORES = ("scores",)
 SCORE = ("score",)
 ENCODER = ("enc",)
+VOCAB = ("vocab",)
 METRIC = ("metric",)
 NOCLASS = ("none",)  # the literal None: as a truth it is the 'none' class of an unlabelled / unmatched item
 WRAPPERS = {("ext", "numpy.array"), ("ext", "numpy.asarray"), ("ext", "numpy.stack"), ("ext", "numpy.vstack"), ("builtin", "list"),
@@ -146,7 +147,7 @@ class Flow:
     # ------------------------------------------------------------------ driving
     def run(self):
         s = self.ctx.summ.of_func(self.modname, self.entry)
-        env = {"clip_predictions": seq(("pred", "clip")), "clip_annotations": seq(("ann", "clip"))}
+        env = {"clip_predictions": seq(("pred", "clip")), "clip_annotations": seq(("ann", "clip")), "tags": VOCAB}
         fr = Frame(s, env)
         self.top = fr
         out = EMPTY
@@ -398,7 +399,16 @@ class Flow:
                     return tags
                 return OTHER
             if name == "create_tag_encoder":
-                return ENCODER
+                # the vocabulary of the task is the caller's `tags`, whole and in its order: classes are its positions
+                arg = b.get("tags", t[2][0] if t[2] else None)
+                while arg is not None and arg[0] == "call" and arg[1] in (("builtin", "list"), ("builtin", "tuple")) and len(arg[2]) == 1 and not arg[3]:
+                    arg = arg[2][0]
+                ra = self.role(fr, arg, depth) if arg is not None else OTHER
+                if ra == VOCAB:
+                    return ENCODER
+                if ra == ("opaque",):
+                    return ENCODER
+                return ("bad", f"an encoder built from `{show(arg)[:50] if arg is not None else '-'}` instead of the task's tag vocabulary")
             return OTHER
         callee = self.role(fr, f, depth) if f[0] in ("param", "sub", "elem", "global", "attr") else OTHER
         if callee == METRIC:
